@@ -23,7 +23,7 @@ RULE = ('Seeded histories of 2..8 operations on a directory with <= 3 paths: put
 ASSUMPTIONS = ['fault-free by statement: no crash / truncation is injected here', 'SED values are compared within 1e-12 relative (SED.read multiplies and divides by nu even when the unit is unchanged); cube and convolved files exactly',
                'for an SED written without apertures only the single row of values is required (apertures need not come back as None)']
 PROBES = ['overwrite_other_shape', 'sed_asc_written', 'sed_desc_written', 'cube_no_unc', 'cube_no_apertures', 'cube_memmap_read', 'cube_get_sed',
-          'read_order_wav', 'read_order_nu', 'unit_erg', 'unit_jy', 'conv_no_apertures', 'stale_memmap_reader', 'sed_no_apertures']
+          'read_order_wav', 'read_order_nu', 'unit_erg', 'unit_jy', 'conv_no_apertures', 'stale_memmap_reader', 'sed_no_apertures', 'gz_path', 'gz_sibling_present']
 
 
 def budgets(tier):
@@ -42,12 +42,15 @@ def _gen_obj(rng, kind):
 
 def generate(rng, tier, idx):
     steps = []
-    paths = ['a.fits', 'b.fits', 'c.fits'][:rng.randint(1, 3)]
+    # a.fits and a.fits.gz may both exist in the directory: each must read back what was put under THAT name
+    paths = rng.sample(['a.fits', 'a.fits.gz', 'b.fits', 'b.fits.gz', 'c.fits'], rng.randint(1, 4))
     stored = {}
     for _ in range(rng.randint(2, 8)):
         if not stored or rng.random() < 0.4:
             p = rng.choice(paths)
             kind = rng.choice(['sed', 'cube', 'cube', 'conv'])
+            if p.endswith('.gz') or (p + '.gz') in paths:
+                kind = rng.choice(['sed', 'sed', 'conv'])     # compressed files cannot be memory-mapped: keep cubes uncompressed
             steps.append({'op': 'put', 'path': p, 'obj': _gen_obj(rng, kind)})
             stored[p] = kind
         else:
@@ -196,6 +199,10 @@ def _execute(sc, sim, out):
                 out.violate('write-failed', '%s raised %s: %s' % (what, pipe.exc_name(r), r[1]), key='%s/%s@%s' % (o['kind'], pipe.exc_name(r), pipe.where(r[1]) if r[0] == 'exc' else ''))
                 break
             store[st['path']] = R
+            if st['path'].endswith('.gz'):
+                out.probe('gz_path')
+            if (st['path'] + '.gz') in store or st['path'][:-3] in store:
+                out.probe('gz_sibling_present')
             if o['kind'] == 'sed':
                 out.probe('sed_asc_written' if o['asc'] else 'sed_desc_written')
                 if not o['has_ap']:
